@@ -12,6 +12,15 @@ OP_NOTE = ("Trusted: TLC; the harness store (harness/modelstore) as an implement
            "implementation traces are TLC-simulated behaviours plus seeded random histories, not all histories.")
 
 CLAIMS = {
+    "C20": dict(level="exploration", ref="DESIGN.md §3 C20, §4",
+                text="spec/Isolation.tla names the shared cells of the statement (package defaults, default and caller-supplied HTTP client, instances created earlier, "
+                     "storage-owned device state), the operations (provider construction with every endpoint option, serving, device poll, every RP / RS / "
+                     "token-exchange client call with the caller's and with the default HTTP client) and the promise WriteSet(op) = {} ; TLC enumerates the "
+                     "programs (sequences of operations; pairs run concurrently). Each program is executed on real instances: sequential programs compare "
+                     "snapshots of every cell before and after, concurrent programs run under the Go race detector; the monitor IsolationTrace judges "
+                     "'no cell changed' and 'no race report'.",
+                technique="TLA+ spec (cells, operations, write sets, program set) enumerated with TLC; programs executed on real instances (snapshots, Go race detector); observations judged by the TLA+ monitor",
+                note="Exploration: program-exhaustive for the bounded program set; data races are what the dynamic race detector sees (DESIGN.md §4)."),
     "C19": dict(level="model_checking", ref="DESIGN.md §3 C19",
                 text="spec/Discovery.tla: configuration = five provider options x three storage capabilities x issuer shape x endpoint table x router; "
                      "Advertised(cfg) / Accepted(cfg) transcribe the discovery builders and the two grant dispatchers and TLC checks that they agree in every "
